@@ -243,6 +243,35 @@ def build_case(spec, dom, cx):
         return (-a, a.ufl_shape, fi_of(a), lambda comp, idx: -cx.v(a, comp, idx), ops)
     if k == "abs":
         return (abs(a), a.ufl_shape, fi_of(a), lambda comp, idx: ring.absval(cx.v(a, comp, idx)), ops)
+    if k == "idempotent":
+        # an operator applied to its own result where the constructor returns the existing object: the inner object
+        # is an operand of this case (its integrity is checked after the construction)
+        which = spec["which"]
+        if which == "abs_abs":
+            inner_ = abs(a)
+            return (abs(inner_), a.ufl_shape, fi_of(a), lambda comp, idx: ring.absval(cx.v(a, comp, idx)), ops + [inner_])
+        if which == "abs_conj_abs":
+            inner_ = abs(conj(a))
+            return (abs(conj(inner_)), a.ufl_shape, fi_of(a), lambda comp, idx: ring.absval(cx.v(a, comp, idx)), ops + [inner_])
+        if which == "det_det":
+            inner_ = det(a)
+            return (det(inner_), (), {}, lambda comp, idx: cx.v(inner_, (), idx), ops + [inner_])
+        if which == "inner_inner_one":
+            inner_ = inner(a, b)
+            return (inner(inner_, as_ufl(1.0)), (), {}, lambda comp, idx: cx.v(inner_, (), idx), ops + [inner_])
+        if which == "outer_one_outer":
+            inner_ = outer(a, b)
+            return (outer(as_ufl(1.0), inner_), inner_.ufl_shape, {}, lambda comp, idx: cx.v(inner_, comp, idx), ops + [inner_])
+        if which == "conj_conj":
+            inner_ = conj(a)
+            return (conj(inner_), a.ufl_shape, fi_of(a), lambda comp, idx: cx.v(a, comp, idx), ops + [inner_])
+        if which == "neg_neg":
+            inner_ = -a
+            return (-inner_, a.ufl_shape, fi_of(a), lambda comp, idx: cx.v(a, comp, idx), ops + [inner_])
+        if which == "transpose_transpose":
+            inner_ = transpose(a)
+            return (transpose(inner_), a.ufl_shape, {}, lambda comp, idx: cx.v(a, comp, idx), ops + [inner_])
+        raise KeyError(which)
     if k == "pow":
         n = spec["n"]
         e = as_ufl(n)
@@ -548,6 +577,16 @@ def run(spec):
         built, shape, free, val, ops = build_case(spec, dom, cx)
     except KeyError as ke:
         return outcome(name, "error", detail=f"bad spec {ke}")
+    # integrity of the operands after the construction: no operand may have become its own operand or changed otherwise
+    for o in ops:
+        try:
+            bad_self = any(x is o for x in getattr(o, "ufl_operands", ()))
+            repr(o)
+        except RecursionError:
+            bad_self = True
+        if bad_self:
+            return outcome(name, "violated", detail=f"the constructor modified an operand: a {type(o).__name__} became its own operand",
+                           sample=f"{spec['case']}", witness={"structural": "operand mutated"})
     sample = f"{spec['case']}({', '.join(str(o)[:60] for o in ops)}) -> {str(built)[:200]}"
     # structure
     if tuple(built.ufl_shape) != tuple(shape):
@@ -694,6 +733,16 @@ def specs(tier):
             for sh in shs:
                 for fa in ("coef", "sum", "list", "ctperm") if len(sh) <= 2 else ("coef",):
                     add(case="list_of_indexed", which=which, shapes=(sh,), forms=(fa,), complex=cxm)
+        # constructors that return an existing object of their own class
+        for which, shs in (("abs_abs", ((), (2,))), ("abs_conj_abs", ((),)), ("det_det", ((2, 2),)), ("inner_inner_one", ((2,), (2,))),
+                           ("outer_one_outer", ((2,), (3,))), ("conj_conj", ((), (2,))), ("neg_neg", ((), (2,))),
+                           ("transpose_transpose", ((2, 3),))):
+            if which in ("inner_inner_one", "outer_one_outer"):
+                add(case="idempotent", which=which, shapes=shs, forms=("coef", "coef"), complex=cxm)
+            else:
+                for sh in shs:
+                    for fa in ("coef", "sum"):
+                        add(case="idempotent", which=which, shapes=(sh,), forms=(fa,), complex=cxm)
         # conditionals
         for rel in ("lt", "gt", "le", "ge", "eq", "ne"):
             for sh in ((), (2,)):
